@@ -1307,6 +1307,8 @@ func opVersionSweep(r *rand.Rand) {
 		}
 		c.Controller = 0
 		c.Topics["t"] = &fakecluster.Topic{Parts: map[int32]*fakecluster.Part{0: {Leader: 0, Replicas: []int32{0}, Isr: []int32{0}}, 1: {Leader: 0, Replicas: []int32{0}, Isr: []int32{0}}}}
+		// partitions the metadata designates no broker for: no leader (−1) and a leader id that is not a listed broker
+		c.Topics["nl"] = &fakecluster.Topic{Parts: map[int32]*fakecluster.Part{0: {Leader: -1}, 1: {Leader: 8}, 2: {Leader: 2, Replicas: []int32{2}, Isr: []int32{2}}}}
 		for i := 0; i < 6; i++ {
 			c.GroupCoord["g"+strconv.Itoa(i)] = 0
 			c.TxnCoord["x"+strconv.Itoa(i)] = 0
@@ -1340,6 +1342,11 @@ func opVersionSweep(r *rand.Rand) {
 					}
 				}
 				s.send(spec)
+			}
+			for _, pkg := range []string{"listoffsets", "produce", "fetch"} {
+				s.send(reqSpec{pkg: pkg, tps: []tp{{"nl", []int32{0}}}})
+				s.send(reqSpec{pkg: pkg, tps: []tp{{"nl", []int32{1, 2}}}})
+				s.send(reqSpec{pkg: pkg, tps: []tp{{"nl", []int32{2}}, {"t", []int32{0}}}})
 			}
 		}
 		s.close()
